@@ -1318,7 +1318,6 @@ func ruleC04AppIDPerPDR(w *World, r *Report, prop, rule string) {
 	r.floor(rule+" terminations entries built in the PDR loop", n, 1)
 }
 
-
 // reachesBlockNoHeader: b is reachable from a without passing the loop header hdr.
 func reachesBlockNoHeader(a, b, hdr *ssa.BasicBlock) bool {
 	seen := map[*ssa.BasicBlock]bool{}
